@@ -2,6 +2,9 @@ import OtelVerif.Common.Line
 import OtelVerif.Model.C02
 import OtelVerif.Model.C02P
 import OtelVerif.Model.C02Check
+import OtelVerif.Model.C02R
+import OtelVerif.Model.C02A
+import OtelVerif.Model.C02V
 /-! driver for C02: models `c02-cond` (cond.go alone, scheduler-controlled lock) and `c02-queue`
 (memory queue, run-to-quiescence after every environment label) -/
 open OtelVerif OtelVerif.Line OtelVerif.C02
@@ -386,7 +389,14 @@ def configHandler : Handler GD where
   init := {}
   onCase := fun g toks =>
     let k : Cfg := { cap := (kvInt toks "cap").getD 1, block := parseBool (kv toks "block"), wfr := parseBool (kv toks "wfr") }
-    { g with q := { k := k } }
+    let persistent := parseBool (kv toks "persistent")
+    let q0 : QD := { k := k, persistent := persistent }
+    -- `storage` written: the persistent queue, whose reads matter for the reported size (reset when the last stored request is
+    -- read): the exporter's consumers all park in `Read` at start; each accepted request wakes one of them (the LTS does the rest)
+    let q := if persistent then
+        (List.range ((kvNat toks "consumers").getD 1)).foldl (fun (q : QD) c => ((q.applyLabel (.read c)).getD q)) q0
+      else q0
+    { g with q := q }
   onOp := fun g toks =>
     let g := { g with lastOp := toks }
     match toks with
@@ -425,14 +435,14 @@ def configHandler : Handler GD where
             match p.toNat?, el.toInt? with
             | some p, some el =>
               let st := (ps.lookup p).getD "?"
-              fail g (!(Check.refusalClause false g.q.k.block false g.q.k.cap g.prevSize el st))
-                s!"sig=C02/config/refusal-not-exact-for-configured-sizer p={p} configured-size={el} reported-size-before={g.prevSize} queue_size={g.q.k.cap} got {st} want-refusal '{Check.expectedRefusal false g.q.k.block false g.q.k.cap g.prevSize el}'"
+              fail g (!(Check.refusalClause g.q.persistent g.q.k.block false g.q.k.cap g.prevSize el st))
+                s!"sig=C02/config/refusal-not-exact-for-configured-sizer p={p} configured-size={el} reported-size-before={g.prevSize} queue_size={g.q.k.cap} got {st} want-refusal '{Check.expectedRefusal g.q.persistent g.q.k.block false g.q.k.cap g.prevSize el}'"
             | _, _ => g
           | _ => g
         -- before the drain nothing finishes: without wait_for_result the reported size is the configured size of what was accepted
         let accepted := ps.filter (fun (_, st) => st == "nil" || st == "e1")
         let want := accepted.foldl (fun a (p, _) => a + (g.els.lookup p).getD 0) (0 : Int)
-        let g := fail g (!g.drained && !g.q.k.wfr && size != want)
+        let g := fail g (!g.drained && !g.q.k.wfr && !g.q.persistent && size != want)
           s!"sig=C02/config/reported-size-is-not-configured-size-of-accepted size={size} configured-sum={want}{at_}"
         let g := fail g (g.drained && size != 0) s!"sig=C02/config/size-not-zero-after-drain size={size}"
         { g with prevSize := size }
@@ -442,6 +452,286 @@ def configHandler : Handler GD where
     match g.fails with
     | [] => ["prop config=ok"]
     | f :: _ => [s!"prop config=FAIL {f}"]
+
+/-! ## persistent queue: size accounting across lives (`Model/C02R.lean`), sequential, exact differential -/
+
+structure RM where
+  cap : Int := 1
+  reqSized : Bool := false
+  fresh : Bool := true              -- no restart yet in this case: the life started on empty storage
+  prevSize : Int := 0
+  lastOp : List String := []
+  infl : List (Nat × Int) := []     -- reads of this life that are not done yet: index ↦ recorded size
+  fails : List String := []
+
+structure RD where
+  c : R.RCfg := { cap := 1, reqSized := false }
+  s : R.RSt := {}
+  mon : RM := {}
+
+def natList (l : List Nat) : String := joinOr "," (l.map toString)
+
+def RD.obs (d : RD) (ret : String) : String :=
+  let q := (List.range' d.s.ri (d.s.wi - d.s.ri)).map (fun i =>
+    match d.s.store.lookup i with
+    | some (id, n) => s!"{id}:{n}"
+    | none => "?")
+  s!"obs ret={ret} size={d.s.size} ri={d.s.ri} wi={d.s.wi} disp={natList d.s.disp} " ++
+  s!"si={match d.s.sSi with | some v => toString v | none => "-"} di={natList d.s.sDi} q={joinOr "," q}"
+
+def parseQ (s : String) : Option (List (Nat × Nat)) :=
+  if s == "-" then some [] else
+  (s.splitOn ",").foldr (fun t acc =>
+    match t.splitOn ":", acc with
+    | [a, b], some r => match a.toNat?, b.toNat? with
+      | some a, some b => some ((a, b) :: r)
+      | _, _ => none
+    | _, _ => none) (some [])
+
+def RM.fail (m : RM) (c : Bool) (msg : String) : RM := if c then { m with fails := m.fails ++ [msg] } else m
+
+def RM.onObs (m : RM) (toks : List String) : RM :=
+  match toks with
+  | "obs" :: rest =>
+    match Check.kvOf rest "ret", (Check.kvOf rest "size").bind String.toInt?, (Check.kvOf rest "q").bind parseQ with
+    | some ret, some size, some q =>
+      let c : R.RCfg := { cap := m.cap, reqSized := m.reqSized }
+      let at_ := " after op " ++ "_".intercalate m.lastOp
+      let nQ := q.length
+      let sumQ := q.foldl (fun a x => a + R.sizeOf c x.2) (0 : Int)
+      let m := match m.lastOp with
+        | ["offer", n] =>
+          match n.toNat? with
+          | some n => m.fail (!(R.refusalClause m.cap m.prevSize (R.sizeOf c n) (ret == "full")))
+              s!"sig=C02/pqsize/refusal-not-exact size-before={m.prevSize} request-size={R.sizeOf c n} cap={m.cap} got {ret}"
+          | none => m
+        | ["read"] =>
+          match ret.splitOn ":" with
+          | [i, _, el] => match i.toNat?, el.toInt? with
+            | some i, some el => { m with infl := m.infl ++ [(i, el)] }
+            | _, _ => m.fail true s!"sig=C02/harness/unparsable-pqsize-read {ret}"
+          | _ => m
+        | ["done", i, _] =>
+          match i.toNat? with
+          | some i => { m with infl := m.infl.filter (fun x => x.1 != i) }
+          | none => m
+        | "restart" :: _ =>
+          let m := { m with fresh := false, infl := [] }
+          let m := m.fail (nQ == 0 && size != 0) s!"sig=C02/pqsize/size-nonzero-after-restart-on-nothing size={size}"
+          let m := m.fail (m.reqSized && nQ != 0 && size != (nQ : Int))
+            s!"sig=C02/pqsize/requests-sized-restart-size-not-exact size={size} stored-requests={nQ}"
+          m.fail (!(R.restartClause m.reqSized size nQ) && !(nQ == 0 && size != 0) && !(m.reqSized && nQ != 0 && size != (nQ : Int)))
+            s!"sig=C02/pqsize/restart-clause size={size} stored-requests={nQ}"
+        | _ => m
+      let sumF := m.infl.foldl (fun a x => a + x.2) (0 : Int)
+      let m := m.fail (m.fresh && !(R.freshClause m.cap size (sumQ + sumF)))
+        s!"sig=C02/pqsize/size-out-of-bounds-in-fresh-life size={size} cap={m.cap} unfinished-sum={sumQ + sumF}{at_}"
+      let m := m.fail (!(R.anyClause size sumF nQ))
+        s!"sig=C02/pqsize/size-accounting size={size} in-flight-sum={sumF} queued={nQ}{at_}"
+      { m with prevSize := size }
+    | _, _, _ => m.fail true "sig=C02/harness/unparsable-pqsize-obs"
+  | _ => m
+
+def pqsizeHandler : Handler RD where
+  init := {}
+  onCase := fun d toks =>
+    let c : R.RCfg := { cap := (kvInt toks "cap").getD 1, reqSized := parseBool (kv toks "req") }
+    { d with c := c, s := {}, mon := { cap := c.cap, reqSized := c.reqSized } }
+  onOp := fun d toks =>
+    let d := { d with mon := { d.mon with lastOp := toks } }
+    match toks with
+    | ["offer", n] =>
+      match n.toNat? with
+      | some n => let r := R.offer d.c d.s n; let d' := { d with s := r.1 }; (d', [d'.obs (if r.2 then "ok" else "full")])
+      | none => (d, ["obs bad-op"])
+    | ["read"] =>
+      match R.read d.c d.s with
+      | some (s', idx, id, el) => let d' := { d with s := s' }; (d', [d'.obs s!"{idx}:{id}:{el}"])
+      | none => (d, ["obs bad-step"])
+    | ["done", idx, e] =>
+      match idx.toNat? with
+      | some idx =>
+        match R.done d.c d.s idx (e == "1") with
+        | some s' => let d' := { d with s := s' }; (d', [d'.obs "-"])
+        | none => (d, ["obs bad-step"])
+      | none => (d, ["obs bad-op"])
+    | ["shutdown"] => let d' := { d with s := R.shutdown d.c d.s }; (d', [d'.obs "-"])
+    | "restart" :: rest =>
+      match (Check.kvOf rest "cap").bind String.toInt?, Check.kvOf rest "req" with
+      | some cap, some rq =>
+        let c : R.RCfg := { cap := cap, reqSized := rq == "1" }
+        let d' : RD := { c := c, s := R.restart c d.s, mon := { d.mon with cap := cap, reqSized := rq == "1" } }
+        (d', [d'.obs "-"])
+      | _, _ => (d, ["obs bad-op"])
+    | _ => (d, ["obs bad-op"])
+  onObs := fun d toks => { d with mon := d.mon.onObs toks }
+  onEnd := fun d =>
+    match d.mon.fails with
+    | [] => ["prop pqsize=ok"]
+    | f :: _ => [s!"prop pqsize=FAIL {f}"]
+
+/-! ## the consumer pool (`async_queue.go`, `Model/C02A.lean`): exact differential at quiescence -/
+
+structure AM where
+  n : Nat := 1
+  persistent : Bool := false
+  deferred : Bool := false
+  stopped : Bool := false
+  left : List Nat := []
+  prevBusy : List Nat := []
+  lastOp : List String := []
+  fails : List String := []
+
+structure AD where
+  k : Cfg := { cap := 1, block := false, wfr := false }
+  pl : A.Pool := { n := 1, persistent := false }
+  a : A.ASt := {}
+  prods : List Nat := []
+  deferred : Bool := false
+  mon : AM := {}
+
+def AD.next (d : AD) : Option A.ALabel :=
+  let cands : List A.ALabel :=
+    d.prods.flatMap (fun p => [.q (.wakeTok p), .q (.wakeCtx p), .q (.relockTok p), .q (.relockCtx p), .q (.getRes p), .q (.resCtx p)]) ++
+    (List.range d.pl.n).flatMap (fun c => [A.ALabel.cread c, A.ALabel.crecheck c] ++ (if d.deferred then [A.ALabel.cret c] else []))
+  cands.find? (fun l => (A.afire d.k d.pl d.a l).isSome)
+
+def AD.closure : Nat → AD → AD
+  | 0, d => d
+  | fuel + 1, d =>
+    match d.next with
+    | none => d
+    | some l => match A.afire d.k d.pl d.a l with
+      | some a' => AD.closure fuel { d with a := a' }
+      | none => d
+
+def sortNat (l : List Nat) : List Nat := l.foldl (fun acc x => insertSorted x acc) []
+
+def AD.busy (d : AD) : List Nat :=
+  sortNat ((List.range d.pl.n).filterMap (fun c => match d.a.cs c with | .busy id => some id | _ => none))
+
+def AD.obs (d : AD) : String :=
+  let pst (p : Nat) : String := match (d.a.q.ps p).ph with
+    | .done r => resStr r
+    | .idle => "I"
+    | _ => "B"
+  let shut := d.a.q.stopped && (List.range d.pl.n).all (fun c => d.a.cs c == .exited)
+  s!"obs size={d.a.q.size} Q={joinOr "," (d.a.q.items.map (fun x => toString x.1))} busy={natList d.busy} " ++
+  s!"P={joinOr "," (d.prods.map (fun p => s!"{p}:{pst p}"))} shut={if shut then 1 else 0}"
+
+def AD.fireAll (d : AD) (ls : List A.ALabel) : Option AD :=
+  ls.foldl (fun (acc : Option AD) l => acc.bind (fun d => (A.afire d.k d.pl d.a l).map (fun a' => { d with a := a' }))) (some d)
+
+def parseNatList (s : String) : Option (List Nat) :=
+  if s == "-" then some [] else
+  (s.splitOn ",").foldr (fun t acc => match t.toNat?, acc with
+    | some v, some r => some (v :: r)
+    | _, _ => none) (some [])
+
+def AM.onObs (m : AM) (toks : List String) : AM :=
+  match toks with
+  | "obs" :: rest =>
+    match (Check.kvOf rest "Q").map (fun q => if q == "-" then 0 else (q.splitOn ",").length), (Check.kvOf rest "busy").bind parseNatList with
+    | some nq, some busy =>
+      let at_ := " after op " ++ "_".intercalate m.lastOp
+      let left := m.left ++ m.prevBusy.filter (fun id => !busy.contains id)
+      let fail (m : AM) (c : Bool) (msg : String) : AM := if c then { m with fails := m.fails ++ [msg] } else m
+      let m := fail m (!(A.workClause m.n m.persistent m.deferred m.stopped nq busy.length))
+        s!"sig=C02/async/request-waits-beside-idle-consumer queued={nq} inside-consumeFunc={busy.length} consumers={m.n}{at_}"
+      let m := fail m (!(A.onceClause left busy))
+        s!"sig=C02/async/request-handed-to-consumeFunc-twice busy={busy} returned-before={left}{at_}"
+      { m with left := left, prevBusy := busy }
+    | _, _ => { m with fails := m.fails ++ ["sig=C02/harness/unparsable-async-obs"] }
+  | _ => m
+
+def asyncHandler : Handler AD where
+  init := {}
+  onCase := fun _ toks =>
+    let k : Cfg := { cap := (kvInt toks "cap").getD 1, block := parseBool (kv toks "block"), wfr := parseBool (kv toks "wfr") }
+    let pl : A.Pool := { n := (kvNat toks "consumers").getD 1, persistent := parseBool (kv toks "persistent") }
+    let deferred := parseBool (kv toks "deferred")
+    -- `Start`: every consumer calls `Read` and parks
+    AD.closure 10000 { k := k, pl := pl, deferred := deferred, mon := { n := pl.n, persistent := pl.persistent, deferred := deferred } }
+  onOp := fun d toks =>
+    let d := { d with mon := { d.mon with lastOp := toks, stopped := d.mon.stopped || toks == ["shutdown"] } }
+    let go (d : AD) (ls : List A.ALabel) : AD × List String :=
+      match d.fireAll ls with
+      | some d' => let d2 := AD.closure 10000 d'; (d2, [d2.obs])
+      | none => (d, ["obs bad-step"])
+    match toks with
+    | ["offer", p, el] =>
+      match p.toNat?, el.toInt? with
+      | some p, some el => go { d with prods := insertSorted p d.prods } [.q (.offer p el)]
+      | _, _ => (d, ["obs bad-op"])
+    | ["cancel", p] =>
+      match p.toNat? with
+      | some p => go d [.q (.cancel p)]
+      | none => (d, ["obs bad-op"])
+    | ["release", id, e] =>
+      -- inline consumeFunc: it completes the request, then returns
+      match id.toNat?, e.toNat? with
+      | some id, some e =>
+        match (List.range d.pl.n).find? (fun c => d.a.cs c == .busy id) with
+        -- the consumer goroutine runs on (one P, no blocking call in between): OnDone, return, the next `Read` — only then do
+        -- the producers that the completion's Broadcast made runnable get the lock
+        | some c => go d [.q (.complete id e), .cret c, .cread c]
+        | none => (d, ["obs bad-step"])
+      | _, _ => (d, ["obs bad-op"])
+    | ["done", id, e] =>
+      match id.toNat?, e.toNat? with
+      | some id, some e => go d [.q (.complete id e)]
+      | _, _ => (d, ["obs bad-op"])
+    | ["shutdown"] => go d [.q .shutdown]
+    | _ => (d, ["obs bad-op"])
+  onObs := fun d toks => { d with mon := d.mon.onObs toks }
+  onEnd := fun d =>
+    match d.mon.fails with
+    | [] => ["prop async=ok"]
+    | f :: _ => [s!"prop async=FAIL {f}"]
+
+/-! ## `Config.Validate` / `BatchConfig.Validate` (`Model/C02V.lean`): one configuration per case, exact differential -/
+
+structure VD where
+  fails : List String := []
+
+def parseSizer : String → V.Sizer
+  | "requests" => .requests | "items" => .items | "bytes" => .bytes | _ => .other
+
+def validateHandler : Handler VD where
+  init := {}
+  onCase := fun _ _ => {}
+  onOp := fun d toks =>
+    match toks with
+    | "validate" :: rest =>
+      match (Check.kvOf rest "enabled"), (Check.kvOf rest "consumers").bind String.toInt?, (Check.kvOf rest "queue_size").bind String.toInt?,
+            Check.kvOf rest "storage", Check.kvOf rest "wfr", Check.kvOf rest "sizer", Check.kvOf rest "batch" with
+      | some en, some nc, some qs, some st, some wfr, some sz, some b =>
+        let batch : Option V.Batch :=
+          match b.splitOn "," with
+          | [ft, mn, mx] => match ft.toInt?, mn.toInt?, mx.toInt? with
+            | some ft, some mn, some mx => some { flushTimeout := ft, minSize := mn, maxSize := mx }
+            | _, _, _ => none
+          | _ => none
+        let c : V.QCfg := { enabled := en == "1", numConsumers := nc, queueSize := qs, storage := st == "1", wfr := wfr == "1",
+                            sizer := parseSizer sz, batch := batch }
+        (d, [s!"obs config={(V.validate c).str} batch={(V.validateBatch batch).str}"])
+      | _, _, _, _, _, _, _ => (d, ["obs bad-op"])
+    | _ => (d, ["obs bad-op"])
+  onObs := fun d toks =>
+    -- `tr accepted=.. enabled=.. consumers=.. queue_size=.. storage=.. wfr=.. req=..`: the clause on what the implementation accepted
+    match toks with
+    | "tr" :: rest =>
+      match Check.kvOf rest "accepted", Check.kvOf rest "enabled", (Check.kvOf rest "consumers").bind String.toInt?,
+            (Check.kvOf rest "queue_size").bind String.toInt?, Check.kvOf rest "storage", Check.kvOf rest "wfr", Check.kvOf rest "req" with
+      | some a, some en, some nc, some qs, some st, some wfr, some rq =>
+        if V.acceptClause (a == "1") (en == "1") nc qs (st == "1") (wfr == "1") (rq == "1") then d
+        else { d with fails := d.fails ++ [s!"sig=C02/validate/accepted-configuration-breaks-queue-hypotheses consumers={nc} queue_size={qs} storage={st} wfr={wfr} requests-sizer={rq}"] }
+      | _, _, _, _, _, _, _ => { d with fails := d.fails ++ ["sig=C02/harness/unparsable-validate-tr"] }
+    | _ => d
+  onEnd := fun d =>
+    match d.fails with
+    | [] => ["prop validate=ok"]
+    | f :: _ => [s!"prop validate=FAIL {f}"]
 
 /-! ## soak (native scheduler): monitor only -/
 
@@ -474,4 +764,7 @@ def main : IO UInt32 :=
   runMulti [("c02-cond", run OtelVerif.Drivers.C02.condHandler), ("c02-queue", run (OtelVerif.Drivers.C02.mkQueueHandler false)),
             ("c02-persistent", run (OtelVerif.Drivers.C02.mkQueueHandler true)),
             ("c02-soak", run OtelVerif.Drivers.C02.soakHandler),
-            ("c02-config", run OtelVerif.Drivers.C02.configHandler)]
+            ("c02-config", run OtelVerif.Drivers.C02.configHandler),
+            ("c02-pqsize", run OtelVerif.Drivers.C02.pqsizeHandler),
+            ("c02-async", run OtelVerif.Drivers.C02.asyncHandler),
+            ("c02-validate", run OtelVerif.Drivers.C02.validateHandler)]
